@@ -59,6 +59,17 @@ class KC:
 ALPHA = [(0x61, 0x63), (0x2E, 0x2E)]
 
 
+def _is_proxy_dict(v):
+    return isinstance(v, client.Proxy) or (isinstance(v, dict) and v.get("__class__") == "Pyro5.client.Proxy")
+
+
+def attempt_value(f):
+    try:
+        return f()
+    except Exception as x:
+        return x
+
+
 def symdict(S, d):
     if S.symbolic:
         from pysym.containers import SymDict
@@ -105,7 +116,8 @@ def h_registry_step(S, B):
     S.cover("op:" + op)
     ALIAS_CHECKS = ["reported-ids-count", "id-reaches-its-object", "unknown-id-is-unknown", "registered-id-is-reported",
                     "registered-object-travels-as-proxy", "registered-object-arrives-as-proxy-through-the-serializer",
-                    "proxy-names-an-id-of-the-object", "arrived-proxy-names-an-id-of-the-object", "unregistered-object-travels-by-value"]
+                    "proxy-names-an-id-of-the-object", "arrived-proxy-names-an-id-of-the-object", "unregistered-object-travels-by-value",
+                    "auto-proxy-hook-installed-for-the-type"]
     if op == "register":
         tname = S.choice("target", ["O1", "O2", "O3", "KC"])
         target = pool[tname]
@@ -197,7 +209,7 @@ def h_registry_step(S, B):
         S.known("C16-unregister-by-id-leaves-the-pyro-marks-on-the-object", len(removed) > 0,
                 checks=["unregistered-object-travels-by-value", "registered-object-travels-as-proxy",
                         "registered-object-arrives-as-proxy-through-the-serializer", "proxy-names-an-id-of-the-object",
-                        "arrived-proxy-names-an-id-of-the-object"])
+                        "arrived-proxy-names-an-id-of-the-object", "auto-proxy-hook-installed-for-the-type"])
     elif op == "collect-O1":
         O1 = None
         pool["O1"] = None
@@ -234,8 +246,9 @@ def h_registry_step(S, B):
             S.check("registered-object-travels-as-proxy", isinstance(out, client.Proxy))
             if isinstance(out, client.Proxy):
                 S.check("proxy-names-an-id-of-the-object", Or(*[eq(out._pyroUri.object, i) for i in ids]))
+            # (observed through behaviour only: how the serializers keep their per-type hooks is their own business)
             S.check("auto-proxy-hook-installed-for-the-type",
-                    serializers.JsonSerializer._JsonSerializer__type_replacements.get(type(obj)) is server._pyro_obj_to_auto_proxy)
+                    _is_proxy_dict(attempt_value(lambda: serializers.serializers["json"].default(obj))))
             # through the serializers that support auto-proxying by a `default` hook: what arrives is a proxy for the id
             for sname in ("json", "msgpack"):
                 ser = serializers.serializers[sname]
